@@ -6,6 +6,30 @@ CLAIMED = {
    text='TLC exhausts the symbolic incremental-AEAD machine (every partition of the message, three variants, enc/dec, sessions, re-init) against the one-shot operator, and TLC re-computes every recorded encryption of the real library (6 entry-point families) from the TLA+ definition of ASCON v1.2 AEAD; structure exhaustive by class, data values sampled.',
    note='Trusted: TLC, the transcription of ASCON v1.2 in spec/AsconModes.tla (anchored on the reference KAT vectors by KatCheck), the driver harness/drv_aead.cpp. Key/nonce/data values are sampled, not exhausted.',
    tech='TLA+ spec + TLC model checking (symbolic permutation) + trace validation of the real library against the spec (concrete permutation)'),
+ 'C02': dict(cat='model_checking', ref='DESIGN.md §6 C02',
+   text='MC_Forge exhausts every single-position substitution / truncation / extension on the symbolic AEAD and SIV operators (accept iff authentic; a 15-position tag comparison is refuted); the real library is driven through a bit flip in every ciphertext/tag byte, tag bits, every AD byte, nonce and key bits, paired differences, every truncation and extension for 9 schemes x all entry-point families, each judged by TLC (base ciphertext recomputed from the spec, forged inputs must be rejected and wiped).',
+   note='Trusted: TLC, the L1 transcription in spec/*.tla (anchored on reference KATs by KatCheck), the driver harness/drv_*.cpp. Input VALUES are sampled; structure is enumerated by class.',
+   tech='TLA+ spec + TLC model checking (symbolic permutation) + trace validation of the real library against the spec (concrete permutation)'),
+ 'C03': dict(cat='model_checking', ref='DESIGN.md §6 C03',
+   text='TLC re-computes every recorded HASH/HASHA/XOF/XOFA digest, every fixed declared length (incl. 32, 2^29 clamp, SIZE_MAX) and customised-XOF initialisation (names 0..100 chars incl. exactly 32/33, NULL) from the TLA+ definitions, on three back ends (pre-computed initial values); MC_Sponge shows the object machine refines the one-shot operators.',
+   note='Trusted: TLC, the L1 transcription in spec/*.tla (anchored on reference KATs by KatCheck), the driver harness/drv_*.cpp. Input VALUES are sampled; structure is enumerated by class.',
+   tech='TLA+ spec + TLC model checking (symbolic permutation) + trace validation of the real library against the spec (concrete permutation)'),
+ 'C04': dict(cat='model_checking', ref='DESIGN.md §6 C04',
+   text='TLC re-computes Prf/PrfFixed/Mac, the full PrfShort (inlen,outlen) grid incl. its error cases, HMAC/HMACA for key lengths around and above the 64-byte block, KMAC/KMACA on both init paths, and judges mac_verify for the right tag, all 128 single-bit-wrong tags and random tags.',
+   note='Trusted: TLC, the L1 transcription in spec/*.tla (anchored on reference KATs by KatCheck), the driver harness/drv_*.cpp. Input VALUES are sampled; structure is enumerated by class.',
+   tech='TLA+ spec + TLC model checking (symbolic permutation) + trace validation of the real library against the spec (concrete permutation)'),
+ 'C05': dict(cat='model_checking', ref='DESIGN.md §6 C05',
+   text='MC_Hkdf exhausts expand partitions across the 255-block limit with the real 8-bit counter (prefix of RFC 5869 stream, zero fill, -1); TLC re-computes one-shot and incremental HKDF[A] (incl. objects positioned at blocks 253..255), PBKDF2 / PBKDF2-HMAC for counts 0,1,2,3,5 x output classes, KDF/KDFA.',
+   note='Trusted: TLC, the L1 transcription in spec/*.tla (anchored on reference KATs by KatCheck), the driver harness/drv_*.cpp. Input VALUES are sampled; structure is enumerated by class.',
+   tech='TLA+ spec + TLC model checking (symbolic permutation) + trace validation of the real library against the spec (concrete permutation)'),
+ 'C06': dict(cat='model_checking', ref='DESIGN.md §6 C06',
+   text='TLC re-computes SIV x3 and ISAP x3 ciphertexts from the TLA+ definitions (ISAP v2.0 bit-wise re-keying included) for C, C++ pointer and byte_array entry points; key-object histories (init, packets, save at any point, load into fresh objects, decrypt, forged decrypt) are validated with the frame condition that the raw key bytes are bit-identical after every use; MC_IsapKey shows Load(Save(k)) is k.',
+   note='Trusted: TLC, the L1 transcription in spec/*.tla (anchored on reference KATs by KatCheck), the driver harness/drv_*.cpp. Input VALUES are sampled; structure is enumerated by class.',
+   tech='TLA+ spec + TLC model checking (symbolic permutation) + trace validation of the real library against the spec (concrete permutation)'),
+ 'C07': dict(cat='model_checking', ref='DESIGN.md §6 C07',
+   text='MC_Sponge / MC_SpongeCopy / MC_SpongeDuplex / MC_Aead / MC_Hkdf exhaust, on the symbolic instance, every partition of input and output into calls (incl. empty), copies at any point, re-init after any history, pad, duplex re-absorb, multi-packet sessions; every (count, call length) transition of those machines, random walks and AEAD sessions with independent enc/dec chunkings and in-place buffers are replayed on the real library with the full projected object state compared by TLC after every call.',
+   note='Trusted: TLC, the L1 transcription in spec/*.tla (anchored on reference KATs by KatCheck), the driver harness/drv_*.cpp. Input VALUES are sampled; structure is enumerated by class.',
+   tech='TLA+ spec + TLC model checking (symbolic permutation) + trace validation of the real library against the spec (concrete permutation)'),
  'C08': dict(cat='model_checking', ref='DESIGN.md §6 C08',
    text='Every (offset,size) pair x 6 byte-range operations and every starting round 0..11 is executed on five host back ends; TLC validates each recorded call and the 40 canonical state bytes after it against the TLA+ permutation and state algebra.',
    note='Trusted: TLC, spec/AsconPerm.tla (checked against the published ASCON-HASH initial value and all KATs), the driver. State/data values sampled (patterns, walking bits, random); shape space exhaustive.',
